@@ -183,6 +183,17 @@ def mixed_stack_contract(kinds, noise):
             return f"model {m} ({k}) fitted within the stack has RMSD {r_stack:.4f}, alone {r_alone:.4f}, optimal {best:.4f}"
     if not np.allclose(tr.apply(models.astype(np.float32)), fitted, atol=1e-3):
         return "apply() does not act model-wise on the stack"
+    # the 4x4 form: one matrix per model, each reproducing apply() for its model
+    try:
+        Ms = np.asarray(tr.as_matrix(), dtype=float)
+    except Exception as e:
+        return f"as_matrix() of a stack fitted onto one model raised {type(e).__name__}: {e}"
+    if Ms.shape != (len(kinds), 4, 4):
+        return f"as_matrix() has shape {Ms.shape} for {len(kinds)} models"
+    for m in range(len(kinds)):
+        hom = np.hstack([models[m], np.ones((len(models[m]), 1))]) @ Ms[m].T
+        if not np.allclose(hom[:, :3], np.asarray(fitted[m], dtype=float), atol=2e-3):
+            return f"as_matrix()[{m}] does not reproduce the fitted coordinates of model {m}"
     return None
 
 
